@@ -272,6 +272,45 @@ def check_replay(ck, R):
           "from_exception does not record module:qualname and str(e)", fe.where(mk))
 
 
+def check_exception_surface(ck, R):
+    """The exception object produced by the runner is raised to the caller of call(); the stored
+    form of an exception is read with the keys it is written with."""
+    cl = FA(ck, "base.MementoFunctionBase.call")
+    raises = [r for r in cl.stmts(ast.Raise) if isinstance(r.exc, ast.Name)]
+    ok = False
+    for r in raises:
+        g = cl.enclosing(r, ast.If)
+        if g is not None and A.norm(g.test) == "isinstance(%s, Exception)" % r.exc.id and "op:subscript" in cl.deps(r.exc) and "call:memento_run_batch" in cl.deps(r.exc):
+            ok = True
+    ck.ob(R, cl.key(None, "raises-result-exception"), ok, "call() raises the exception found in its result slot" if ok else
+          "call() does not raise an exception returned in its result slot: a failing (or replayed failing) call returns the exception object as a value", cl.where())
+    rets = [r for r in cl.returns() if r.value is not None]
+    okr = bool(rets) and all("call:memento_run_batch" in cl.deps(r.value) and "op:subscript" in cl.deps(r.value) for r in rets)
+    ck.ob(R, cl.key(None, "returns-slot-0"), okr, "call() returns slot 0 of the one-element batch" if okr else "call() does not return the single batch slot", cl.where())
+    enc = FA(ck, "storage_base.DefaultCodec.JsonExceptionStrategy.encode")
+    ld = FA(ck, "storage_base.DefaultCodec.JsonExceptionStrategy.load")
+    wk = set()
+    for d in [n for n in A.walk_body(enc.node) if isinstance(n, ast.Dict)]:
+        wk |= {A.const_str(k) for k in d.keys if A.const_str(k)}
+    rk = {A.const_str(n.slice) for n in A.walk_body(ld.node) if isinstance(n, ast.Subscript) and A.const_str(n.slice)}
+    okk = wk == rk and len(wk) == 3
+    ck.ob(R, enc.key(None, "exception-fields"), okk, "stored exceptions are read with the fields they are written with %s" % sorted(wk) if okk else
+          "stored exception fields differ: written %s, read %s" % (sorted(wk), sorted(rk)), enc.where())
+    ctor = ld.one(ld.calls("MementoException"), "MementoException(...) in load")
+    order = [A.const_str(a.slice) if isinstance(a, ast.Subscript) else None for a in ctor.args]
+    oko = order == ["exception_name", "message", "stack_trace"]
+    ck.ob(R, ld.key(ctor, "field-order"), oko, "name, message and stack trace are restored in their positions" if oko else
+          "MementoException is rebuilt with fields in the wrong positions: %s" % order, ld.where(ctor))
+    msg = [k for d in [n for n in A.walk_body(enc.node) if isinstance(n, ast.Dict)] for k, v in zip(d.keys, d.values) if A.const_str(k) == "message" and A.norm(v) == "obj.message"]
+    ck.ob(R, enc.key(None, "message-preserved"), bool(msg), "the original message is stored" if msg else "the stored exception does not keep obj.message", enc.where())
+    vp = FA(ck, "storage_base.DefaultCodec.ValuePickleStrategy.encode")
+    vl = FA(ck, "storage_base.DefaultCodec.ValuePickleStrategy.load")
+    okp = any(A.call_dotted(c) == "pickle.dumps" and [A.norm(a) for a in c.args] == ["obj"] for c in vp.calls()) and \
+        any(A.call_dotted(c) == "pickle.loads" for c in vl.calls()) and all(("call:dumps" in vp.deps(r.value)) for r in vp.returns() if r.value is not None)
+    ck.ob(R, vp.key(None, "pickle-pair"), okp, "values are stored with pickle.dumps(obj) and read with pickle.loads" if okp else
+          "the value strategy no longer pairs pickle.dumps(obj) with pickle.loads", vp.where())
+
+
 def check_frame_rule(ck, R):
     ck.rule(R, "frame rule: what storing a partition writes onto the returned object is disjoint from what that "
                "object's own accessors read, so the value handed back by the first call stays usable", 2)
@@ -302,6 +341,7 @@ def check(ck):
     check_order(ck, "C02.R2")
     check_run_record_replay(ck, "C02.R3")
     check_replay(ck, "C02.R4")
+    check_exception_surface(ck, "C02.R4")
     ck.rule("C02.R5", "forget / memento / metadata address the same key as call(): every keyed reference construction in "
                       "base.py passes the function's own context args", 6)
     sibling_reference_sites(ck, "C02.R5")
